@@ -782,6 +782,8 @@ def emit_fn(unit, blk, rel):
                 mv = "move " if toks_b[s].text == "move" else ""
                 spec = MARK.format(f"closure {k} spec") if f"closure {k} spec" in blk.sections else ""
                 inner = cbody
+                if f"at closure {k} first" in blk.sections:
+                    binds = MARK.format(f"at closure {k} first") + binds
                 rep = f"{mv}|{ca.get('params', '')}| -> {ca['ret']} {spec} {{ {binds}{inner} }}"
                 edits.append((toks_b[s].start, toks_b[be].end, rep))
                 continue
